@@ -43,6 +43,15 @@ REG_RULE = ("case = one registry (prefix / common labels incl. invalid ones) + 2
             "overlapping pools) + 4-16 register/unregister/redefine/gather calls; non-trivial = at least two successful and one refused registration; distinct by request text")
 
 PROPS = {
+    "C12": dict(
+        module="Prom.Props.C12",
+        areas=[dict(area="local", quick=1500, thorough=60000)],
+        rule="case = one world (shared counter / int counter with local handles; shared histogram with local histograms; counter / int counter / histogram vector with local vectors) "
+             "+ 6-28 operations (local update, flush, reset/clear, clone, drop, remove_label_values with pending data, direct update, shared reset, read-back); "
+             "non-trivial = at least two flushes/drops in the history; distinct by request text",
+        trusted=["amounts are integers (integer-valued floats in the run, whose sums are exact); float rounding of sums is outside",
+                 "a vector child's value is abstracted to its update/sample count"],
+    ),
     "C06": dict(
         module="Prom.Props.C06",
         areas=[dict(area="reg", quick=1200, thorough=50000,
